@@ -18,8 +18,8 @@ ASSUMPTIONS = [
     "wire length is only defined (and compared) when every member of every net has a centre",
     "overlapping hard rectangles overlap by >= 25% of the smaller one (far above the area tolerance)",
 ]
-CASES = {"quick": 6000, "thorough": 1000000}
-MIN_CASES = {"quick": 1500, "thorough": 30000}
+CASES = {"quick": 36000, "thorough": 1000000}
+MIN_CASES = {"quick": 8000, "thorough": 30000}
 DEFECTS = ["unknown_module", "nonpositive_weight", "nonpositive_area", "soft_without_area", "hard_with_area", "hard_without_rectangles",
            "hard_overlapping_rectangles", "unknown_attribute", "invalid_name", "one_pin_net", "nonpositive_rectangle"]
 REQUIRED_CLASSES = ["wellformed"] + ["defect:" + d for d in DEFECTS]
